@@ -16,6 +16,8 @@ LATE = {
  'C11-f': 'the obligation "length untouched when a fixed-capacity backend refuses to grow" was added for this round, but the runner accepted ANY failure located in the refusing function as the expected panic and so hid it: the runner now never treats a contract assertion of the harness module as an expected failure',
  'C18-f': 'state at a library panic was not observable (Kani has no unwinding): core\'s unwrap/expect panic entry points are now replaced by observing twins that assert the HeapMem still describes the allocation it owns',
  'C03-g': 'no harness called an overridable provided method of the range iterators; the mutant adds O(1) `nth`/`nth_back` overrides that skip without destroying. Added the nth / nth_back contract (k1_handles::range_nth_h: skipped elements are destroyed, each once)',
+ 'C13-g': 'MISSED when first run (quick check of C13 exited 0): the removal-handle contract checked only the read view (`as_bytes_ptr`, size, type id); the mutant reroutes `as_bytes_mut_ptr` of the pop handle to element len-2. Added: mutable access and the mutable byte view of every removal handle address exactly the removed element (k2_remove::check_handle), and the drop-sink removal harnesses now also serve C13',
+ 'C14-h': 'no harness called a provided Iterator method of the reference iterators; written while the agent was still running, after predicting the miss from the task I had given it: k1_handles::iter_provided_h pins count / last / nth / nth_back / rev / fold against their next()-based definitions (bounded: 2 items)',
  'C01-c': 'the copy_bytes contract harness had no unwind bound, so a new loop without invariant made it run into the time limit (exit 2) instead of failing; it now has one, and a real-memory insert harness on 1-byte elements (k3_insert_u8) was added',
 }
 rows = []
@@ -47,7 +49,7 @@ txt = '''
 
 Fresh sub-agents were each given only the text of one property and a scratch worktree of /repo (nothing from
 /verif) and asked for two changes that break the property, still compile and pass the 44 tests, and need
-something specific to manifest. Round 1: 18 agents (one per claimed property); rounds 2, 3 and 4: 10 + 6 + 5 agents, told only which
+something specific to manifest. Round 1: 18 agents (one per claimed property); rounds 2, 3 and 4: 10 + 6 + 8 agents, told only which
 *functions* earlier rounds had already used (round 4 was asked for two cooperating sites or multi-step histories). All %d changes
 were confirmed by me in the scratch worktree (`tools/seed_eval.sh`: suite green with the patch, demo fails with /
 passes without) and are kept under `/verif/seeded/<id>/` (`patch.diff`, `demo.rs`, `notes.md`, `meta.json`; ids
@@ -55,7 +57,8 @@ passes without) and are kept under `/verif/seeded/<id>/` (`patch.diff`, `demo.rs
 NOT be reported.
 
 Every seeded change is reported as a VIOLATION by the **quick** check of its property. Honest accounting: %d of
-the %d were predicted (before running them) to be missed by the checks as they stood when the change arrived; for
+the %d were predicted (before running them) to be missed, or (C13-g, C03-g, C11-f) were actually missed when first run,
+by the checks as they stood when the change arrived; for
 those the registry / harness was strengthened first — the table says how. What the misses had in common: the
 *contract* existed, but no *instance* exercised the configuration (element type without drop glue, zero-sized
 type, a different consumer of a lazy clone, the no-default-features build, an overflowing argument), or a state of
